@@ -105,6 +105,19 @@ var scribblePats = []string{"00", "ff", "inc", "rand"}
 // of a generated value.
 func decodeOp(sc *Scenario, r *engine.PRNG, cfg world.InstCfg, tn string, size int, vocab int) (Op, bool) {
 	op := Op{Kind: "unmarshal", Type: tn, VSeed: r.Next() | 1, VSize: size, Vocab: vocab}
+	if r.Intn(12) == 0 && !cfg.Default {
+		// written by an instance with the other array format (plenc reads the protobuf
+		// repeated form into default slices and vice versa): a writer the reader is
+		// documented to be compatible with, judged by the model-free oracles
+		wcfg := cfg
+		wcfg.ProtoArrays = !wcfg.ProtoArrays
+		if world.ShapeOK(typeInfo(tn), wcfg) {
+			if d, ok := encodeFor(sc, wcfg, &op); ok {
+				op.Data, op.Pat = d, "damaged"
+				return op, true
+			}
+		}
+	}
 	d, ok := encodeFor(sc, cfg, &op)
 	if !ok {
 		return op, false
